@@ -393,7 +393,8 @@ def muxOn (chk : Except Err Unit) (F : Forecaster) : Forecaster where
       let (s', p) ← F.predict s (some f)
       pure ((b, some s'), p)
 
-/-- no member has the selected name: `_check_selected_forecaster` raises a bare `Exception` -/
+/-- no member has the selected name: `_check_selected_forecaster` raises ValueError
+(a bare `Exception` before /repo commit 3ae1e85); the multiplexer never becomes fitted -/
 def muxNone (chk : Except Err Unit) : Forecaster where
   S := Base
   init := {}
@@ -401,9 +402,9 @@ def muxNone (chk : Except Err Unit) : Forecaster where
     let b ← W.lift (b.setYX y)
     let _ ← W.lift (b.setFhOpt fh)
     W.lift chk
-    W.fail .other
-  update := fun b _ _ => do W.lift b.checkFitted; W.fail .other
-  predict := fun b _ => do W.lift b.checkFitted; W.fail .other
+    W.fail .value
+  update := fun b _ _ => do W.lift b.checkFitted; W.fail .value
+  predict := fun b _ => do W.lift b.checkFitted; W.fail .value
 
 def mux (sel : Option String) (names : List String) (Fs : List Forecaster) : Forecaster :=
   match select sel names Fs with
